@@ -437,7 +437,18 @@ def ks_evaluate(ctx, acc, path, pen=None):
         acc["evaluations"] += 2; ks["compared_" + key] += 1
         ks["worst_mono_" + key] = max(ks["worst_mono_" + key], dm); ks["worst_unc_" + key] = max(ks["worst_unc_" + key], du)
         bykey = "p=%d %s" % (pm, hdesc[m]); ks["by_penalty_order_and_scale"][bykey] = ks["by_penalty_order_and_scale"].get(bykey, 0) + 1
-        if dm > tol:
+        # With scales that are powers of two every operation of both fits is the same up to exact scaling, so the solver takes
+        # the same path and the coefficients must agree whatever the conditioning.  With other scales (1e6, 1e9, ...) the two
+        # problems differ by rounding; where the constraint is ACTIVE the non-negative solver may then settle on another active
+        # set of an ill-conditioned problem (thorough tier, seed 1: a 2-d order-3 problem with oscillating data, 25 % apart, both
+        # results non-decreasing, the unconstrained fits bit-identical) — the property does not promise more than a
+        # non-decreasing result there, so such cases are measured, not judged.  Judged: powers of two always; other scales when
+        # the monotonic fit at scale 1 equals the unconstrained one (constraint inactive).
+        judged = pow2 or ks_rel(m1, u1) <= INACTIVE_TOL
+        if dm > tol and not judged:
+            ks["general_scale_active_not_judged"] = ks.get("general_scale_active_not_judged", 0) + 1
+            ks["worst_mono_general_active_not_judged"] = max(ks.get("worst_mono_general_active_not_judged", 0.0), dm)
+        if dm > tol and judged:
             report(ctx, acc, "knotscale:mono-differs", dict(base, max_rel_diff=dm, tolerance=tol),
                    "monotonic fit on rescaled axes (knots and abscissae times %s, smoothing times h^(2p), p = %s: the same objective) differs from the monotonic fit at scale 1 by %.3e of the largest coefficient (tolerance %.1e; the unconstrained fits differ by %.3e)" % (
                        hdesc, [d["penalty_order"] for d in dims], dm, tol, du))
